@@ -1,6 +1,7 @@
 package props
 
 import (
+	"bytes"
 	"fmt"
 	"testing"
 
@@ -31,7 +32,7 @@ type CaseC01 struct {
 func genC01(t *rapid.T) CaseC01 {
 	var pkt []byte
 	wellFormed := false
-	switch rapid.IntRange(0, 7).Draw(t, "fill") {
+	switch rapid.IntRange(0, 8).Draw(t, "fill") {
 	case 0:
 		pkt = make([]byte, 188)
 	case 1:
@@ -48,6 +49,13 @@ func genC01(t *rapid.T) CaseC01 {
 	case 4:
 		p := packet.TestPmtPacket
 		pkt = clone(p[:])
+	case 6:
+		// an adaptation-field-only packet that is nothing but stuffing (af_len 183, no flags), on any PID:
+		// what a multiplexer inserts to keep a PID's rate - it looks a little like a null packet and is none
+		pkt = bytes.Repeat([]byte{0xFF}, 188)
+		pid := int(genBits(t, 13, "stuffing-pid"))
+		copy(pkt, []byte{0x47, byte(pid >> 8), byte(pid), 0x20 | byte(rapid.IntRange(0, 15).Draw(t, "stuffing-cc")), 183, 0x00})
+		wellFormed = true
 	case 5:
 		// a well-formed packet whose payload may start like a PES packet, a PSI section or another packet
 		b := genWellFormedPacket(t, []int{1, 1, 3}, 0).MustBytes()
@@ -371,7 +379,9 @@ func c01Fills() [][]byte {
 	for i := 4; i < 188; i++ {
 		v[i] = byte(i)
 	}
-	return [][]byte{z, o, m, v}
+	st := bytes.Repeat([]byte{0xFF}, 188) // adaptation-field-only stuffing packet
+	copy(st, []byte{0x47, 0x01, 0x00, 0x20, 183, 0x00})
+	return [][]byte{z, o, m, v, st}
 }
 
 // TestC01ExhaustiveGetters: all 2^24 states of bytes 1-3, sync byte good and bad.
@@ -424,7 +434,7 @@ func TestC01ExhaustiveSetters(t *testing.T) {
 				}
 			}
 		}
-		rec.Subspace("flag/TSC/CC setters and counter helpers: all 256 states of the touched byte x all in-range values x 4 fills")
+		rec.Subspace("flag/TSC/CC setters and counter helpers: all 256 states of the touched byte x all in-range values x 5 fills")
 	}
 	// PID: all 65536 states of bytes 1-2 x values
 	var pidVals []int
@@ -506,7 +516,7 @@ func TestC01ExhaustiveEqual(t *testing.T) {
 		}
 	}
 	rec.Bulk(n, n)
-	rec.Subspace("Equal/Equals: all 1504 single-bit differences x 4 fills; FromBytes: all lengths 0..400 x packet at offset 0 or 4 of the slice x 4 fills and all 65536 (byte0, byte3) pairs")
+	rec.Subspace("Equal/Equals: all 1504 single-bit differences x 5 fills; FromBytes: all lengths 0..400 x packet at offset 0 or 4 of the slice x 5 fills and all 65536 (byte0, byte3) pairs")
 }
 
 func FuzzC01(f *testing.F) {
